@@ -30,7 +30,7 @@ func checkMonitorTable(c *Ctx) {
 	ld, _ := c.P.constLit("", "EventTypeDelete")
 	armOf := func(pa *Path) (string, *Effect) {
 		for _, e := range pa.Effects {
-			if e.Kind == "select" && e.Blocking && e.Depth == 0 {
+			if e.Kind == "select" && e.Blocking {
 				if e.Arm < 0 {
 					return "?", e
 				}
@@ -286,7 +286,7 @@ func checkHandlerCallers(c *Ctx) {
 				}
 				n++
 				c.sites++
-				c.check(fnName(f) == "monitor.run" && kind == "call", rule, "Handler."+cc.Method.Name()+"/invoked-in/"+fnName(f)+"["+kind+"]", c.P.instrPos(in), "callback on the monitor goroutine",
+				c.check(c.P.ownedBy(f, "", "monitor.run") && kind == "call", rule, "Handler."+cc.Method.Name()+"/invoked-in/"+fnName(f)+"["+kind+"]", c.P.instrPos(in), "callback on the monitor goroutine",
 					"user callback "+cc.Method.Name()+" is invoked ("+kind+") in "+fnName(f)+": callbacks must only run, serially, on the monitor's own goroutine")
 			}
 		}
